@@ -488,12 +488,18 @@ def null_from(
     node: int,
 ) -> list[int]:
     result = []
+    skipped = set()
 
     def scan(n: int) -> None:
         nonlocal result
         edges = nfa[n]
         if len(edges) == 1 and not edges[0].get("term"):
+            if n in skipped:
+                return None
+            skipped.add(n)
             return scan(cast(int, edges[0]["to"]))
+        if n in result:
+            return None
         result.append(n)
         for edge in edges:
             term, to = edge.get("term"), edge.get("to")
